@@ -5,7 +5,7 @@
 From Coq Require Import List NArith Bool.
 From Delb.Base Require Import PyStr PyStrFacts.
 From Delb.Tree Require Import ATree.
-From Delb.Ws Require Import Reduce Pretty SimplePP WsVariant PrettyFacts.
+From Delb.Ws Require Import Reduce Pretty SimplePP WsVariant PrettyFacts Qualified QualifiedSer.
 Import ListNotations.
 
 (* for every element at every nesting depth (root, sub-tree, or inside a larger output) *)
@@ -37,3 +37,12 @@ Example C18_example :
   data_style t = true /\ reduce_model t = t /\ ws_indent [SP; SP] = true /\
   pretty [SP; SP] true t = simple_pp [SP; SP] true 0 t.
 Proof. vm_compute. repeat split. Qed.
+
+(* namespaced trees are serialized as their qualified view (Ws/Qualified.v: prefixed names, the declarations as
+   attributes of the root), for the prefix table and declarations computed by Serializer._collect_prefixes; the
+   statement holds for every prefix table and every list of declarations *)
+Theorem C18_namespaced : forall pf decl t ind align, is_tag t = true -> data_style t = true -> reduced t ->
+  plain_decl decl = true -> ind <> [] -> ws_indent ind = true ->
+  pretty ind align (qual_root pf decl t) = simple_pp ind align 0 (qual_root pf decl t).
+Proof. exact pretty_simple_ns. Qed.
+Print Assumptions C18_namespaced.
